@@ -93,6 +93,18 @@ impl Sub for Remap {
          and a reported path using ≥2 distinct ids; distinct = hash(files, mappings, steps, sentence)".into()
     }
     fn check(&self, case: &MapCase, ctx: &mut Ctx) -> Result<(), String> {
+        self.check_case(case, ctx)?;
+        let b = &case.base;
+        ctx.sample(|| {
+            serde_json::json!({"connector": b.spec.conn.kind(), "maps": case.maps, "steps": format!("{:?}", case.steps),
+                "user_rows": b.user.as_ref().map_or(0, |u| u.len()), "sentences": b.sentences})
+        });
+        Ok(())
+    }
+}
+
+impl Remap {
+    pub fn check_case(&self, case: &MapCase, ctx: &mut Ctx) -> Result<(), String> {
         let b = &case.base;
         let files = b.spec.render();
         let user_rows: &[LexRow] = b.user.as_deref().unwrap_or(&[]);
@@ -218,10 +230,173 @@ impl Sub for Remap {
         ctx.label_if(user_after_map, "user_after_map");
         ctx.label_if(user_after_map && nmap == 2 && case.steps.iter().rposition(|s| *s == Step::LoadUser) > case.steps.iter().rposition(|s| *s == Step::Map), "user_after_second_map");
         ctx.label_if(case.steps.contains(&Step::WriteRead), "with_roundtrip");
-        ctx.sample(|| {
-            serde_json::json!({"connector": b.spec.conn.kind(), "maps": case.maps, "steps": format!("{:?}", case.steps),
-                "user_rows": user_rows.len(), "sentences": b.sentences})
+        Ok(())
+    }
+}
+
+// ---------------------------------------------------------------------------------------------
+// Connectors with (nearly) the largest possible number of ids
+
+#[derive(Clone, Debug, Serialize, Deserialize, PartialEq, Eq, Hash)]
+pub struct ExtremeMapCase {
+    /// ids on the large side (65535 is the largest a matrix.def header can announce)
+    pub n_big: u16,
+    pub n_small: u16,
+    /// true: the left side is the large one
+    pub big_left: bool,
+    /// permutation of the large side: 0 = identity, 1 = reversal, 2 = rotation by `k`, 3 = swap of the last id with id `k`
+    pub perm: u8,
+    pub k: u16,
+    /// 0 = [map], 1 = [map, map], 2 = [load user, map], 3 = [map, load user], 4 = [map, write/read], 5 = [load user, map, map]
+    pub history: u8,
+    pub salt: u16,
+}
+
+impl ExtremeMapCase {
+    fn perm_list(&self, n: usize, kind: u8) -> Vec<u16> {
+        // list of old ids in the order of their new ids 1..n-1
+        let m = n - 1;
+        let k = usize::from(self.k) % m.max(1);
+        let mut v: Vec<u16> = (1..=m as u16).collect();
+        match kind {
+            1 => v.reverse(),
+            2 => v.rotate_left(k),
+            3 => {
+                if m >= 1 {
+                    v.swap(m - 1, k);
+                }
+            }
+            _ => {}
+        }
+        v
+    }
+    pub fn expand(&self) -> MapCase {
+        use crate::gen::dict::{CatSpec, CharDef, ConnSpec, DictSpec, MatrixSpec, RangeSpec, TokOpts, UnkRow};
+        let (nl, nr) = if self.big_left { (self.n_big, self.n_small) } else { (self.n_small, self.n_big) };
+        let salt = u32::from(self.salt);
+        let idl = |i: u32| -> u16 {
+            match i % 4 {
+                0 => nl - 1,
+                1 => 1 % nl,
+                2 => ((i.wrapping_mul(2654435761) ^ salt) % u32::from(nl)) as u16,
+                _ => nl / 2,
+            }
+        };
+        let idr = |i: u32| -> u16 {
+            match i % 4 {
+                0 => 1 % nr,
+                1 => nr - 1,
+                2 => ((i.wrapping_mul(40503) ^ salt) % u32::from(nr)) as u16,
+                _ => nr / 2,
+            }
+        };
+        let mut lex = vec![];
+        for (i, sf) in ["a", "b", "ab", "c", "ca", "bc", "a", "b"].iter().enumerate() {
+            let i = i as u32;
+            lex.push(LexRow { surface: (*sf).into(), left: idl(i), right: idr(i + 1), cost: (((i * 37 + salt) % 200) as i16) - 100, feature: format!("S{i}") });
+        }
+        let user: Vec<LexRow> = ["abc", "c", "ba"]
+            .iter()
+            .enumerate()
+            .map(|(i, sf)| LexRow { surface: (*sf).into(), left: idl(i as u32 + 2), right: idr(i as u32), cost: -50 - i as i16, feature: format!("V{i}") })
+            .collect();
+        let mut cells = vec![];
+        for i in 0..40u32 {
+            cells.push((idr(i.wrapping_mul(7) + i / 4), idl(i.wrapping_mul(5) + i / 3), (((i * 53 + salt) % 400) as i16) - 200));
+        }
+        let spec = DictSpec {
+            chardef: CharDef {
+                cats: vec![
+                    CatSpec { name: "DEFAULT".into(), invoke: true, group: true, length: 0 },
+                    CatSpec { name: "SPACE".into(), invoke: false, group: true, length: 0 },
+                ],
+                ranges: vec![RangeSpec { start: 0x20, end: 0x20, cats: vec![1] }],
+                style: 0,
+            },
+            unk: vec![
+                UnkRow { cat: 0, left: idl(9), right: idr(9), cost: 300, feature: "U,DEFAULT".into() },
+                UnkRow { cat: 1, left: 0, right: 0, cost: 10, feature: "U,SPACE".into() },
+            ],
+            lex,
+            conn: ConnSpec::Matrix(MatrixSpec { num_right: nr, num_left: nl, cells }),
+            csv_style: 0,
+        };
+        let big = usize::from(self.n_big);
+        let small = usize::from(self.n_small);
+        let mk = |kind_big: u8, kind_small: u8| -> Mapping {
+            let b = self.perm_list(big, kind_big);
+            let s = self.perm_list(small, kind_small);
+            if self.big_left {
+                (b, s)
+            } else {
+                (s, b)
+            }
+        };
+        let maps = vec![mk(self.perm, 1), mk(1 + self.perm % 3, 0)];
+        let steps = match self.history {
+            0 => vec![Step::Map],
+            1 => vec![Step::Map, Step::Map],
+            2 => vec![Step::LoadUser, Step::Map],
+            3 => vec![Step::Map, Step::LoadUser],
+            4 => vec![Step::Map, Step::WriteRead],
+            _ => vec![Step::LoadUser, Step::Map, Step::Map],
+        };
+        MapCase {
+            base: TokCase {
+                spec,
+                user: Some(user),
+                mapping: None,
+                opts: vec![TokOpts { ignore_space: false, max_grouping_len: 0, history: 0 }],
+                sentences: ["abc", "cab", "ab c", "bca", "xa", ""].iter().map(|s| s.to_string()).collect(),
+            },
+            maps,
+            steps,
+        }
+    }
+}
+
+pub struct RemapExtreme;
+
+impl Sub for RemapExtreme {
+    type Case = ExtremeMapCase;
+    fn name(&self) -> &'static str {
+        "remap_extreme"
+    }
+    fn max_shrink_iters(&self) -> u32 {
+        60
+    }
+    fn strategy(&self, _tier: Tier) -> BoxedStrategy<ExtremeMapCase> {
+        (
+            prop_oneof![5 => Just(65_535u16), 3 => 65_530u16..=65_534, 1 => 255u16..=257, 1 => 32_767u16..=32_769],
+            2u16..=4,
+            any::<bool>(),
+            0u8..4,
+            any::<u16>(),
+            0u8..6,
+            any::<u16>(),
+        )
+            .prop_map(|(n_big, n_small, big_left, perm, k, history, salt)| ExtremeMapCase { n_big, n_small, big_left, perm, k, history, salt })
+            .boxed()
+    }
+    fn rule(&self) -> String {
+        "matrix connectors with 65535 (the largest a header can announce; half of the cases), 65530..65534, 32767..32769 or 255..257 ids on one side and 2-4 on the other; words, unknown entries and 40 cells on the first, last,          middle and scattered ids; the large side permuted by the identity, a reversal, a rotation or a swap of the last id, the small side reversed; histories [map], [map,map], [user,map], [map,user], [map,write/read], [user,map,map];          oracle: the 'remap' oracle (every valid mapping is accepted; tokens equal up to π; cost'(π(r),π(l)) == cost(r,l) for every pair); non-trivial = ≥ 65530 ids and a non-identity permutation; distinct = hash(case)".into()
+    }
+    fn check(&self, case: &ExtremeMapCase, ctx: &mut Ctx) -> Result<(), String> {
+        let mc = case.expand();
+        Remap.check_case(&mc, ctx)?;
+        ctx.label_if(case.n_big == 65_535, "exactly_65535_ids");
+        ctx.label_if(case.big_left, "large_left_side");
+        ctx.label_if(!case.big_left, "large_right_side");
+        ctx.label(match case.perm {
+            0 => "identity",
+            1 => "reversal",
+            2 => "rotation",
+            _ => "swap_last",
         });
+        if case.n_big >= 65_530 && case.perm != 0 {
+            ctx.nontrivial(case);
+        }
+        ctx.sample(|| serde_json::to_value(case).unwrap());
         Ok(())
     }
 }
@@ -382,10 +557,14 @@ pub fn run(opts: &Opts) -> Report {
     crate::props::committed_replays(&m, opts, &mut rep);
     run_sub(&a, opts, opts.tier.pick(8000, 120_000), &mut rep);
     run_sub(&m, opts, opts.tier.pick(10_000, 120_000), &mut rep);
+    crate::props::committed_replays(&RemapExtreme, opts, &mut rep);
+    run_sub(&RemapExtreme, opts, opts.tier.pick(96, 1600), &mut rep);
     let _ = guard(|| ());
     rep
 }
 
 pub fn replay(path: &Path) -> Option<i32> {
-    crate::props::try_strict(&Remap, "C06", path).or_else(|| crate::props::try_strict(&Malformed, "C06", path))
+    crate::props::try_strict(&Remap, "C06", path)
+        .or_else(|| crate::props::try_strict(&Malformed, "C06", path))
+        .or_else(|| crate::props::try_strict(&RemapExtreme, "C06", path))
 }
